@@ -10,6 +10,7 @@ package main
 
 import (
 	"fmt"
+	"os"
 	"math"
 	"math/big"
 	"sort"
@@ -442,6 +443,10 @@ func (c *Ctx) Arith(op Op, a, b *Term) *Term {
 			if b.V.Cmp(bigOne) == 0 {
 				return a
 			}
+			if !noLin && a.Op == ODiv && a.Args[1].IsConst() && a.Args[1].V.Cmp(b.V) == 0 && b.V.Sign() > 0 {
+				// (x/c)*c == x - x%c (exact in Go for every x)
+				return c.Arith(OSub, a.Args[0], c.Rem(a.Args[0], b))
+			}
 		}
 	}
 	t := c.mk(op, s, a, b)
@@ -474,6 +479,11 @@ func (c *Ctx) Div(a, b *Term) *Term {
 	if b.IsConst() && b.V.Cmp(bigOne) == 0 {
 		return a
 	}
+	if b.IsConst() && b.V.Sign() > 0 {
+		if q, _, ok := c.divLinear(a, b.V); ok {
+			return q
+		}
+	}
 	t := c.mk(ODiv, s, a, b)
 	// interval: |a/b| <= |a| ; refine for positive divisors
 	if b.ILo.Sign() > 0 {
@@ -494,6 +504,14 @@ func (c *Ctx) Rem(a, b *Term) *Term {
 	s := a.Sort
 	if a.IsConst() && b.IsConst() && b.V.Sign() != 0 {
 		return c.Int(s, truncRem(a.V, b.V))
+	}
+	if b.IsConst() && b.V.Sign() > 0 {
+		if b.V.Cmp(bigOne) == 0 {
+			return c.IntI(s, 0)
+		}
+		if _, r, ok := c.divLinear(a, b.V); ok {
+			return r
+		}
 	}
 	t := c.mk(ORem, s, a, b)
 	// |r| < |b|, sign of a
@@ -681,6 +699,15 @@ func (c *Ctx) Conv(t *Term, s Sort) *Term {
 		return c.Int(s, t.V)
 	}
 	from := t.Sort
+	if !from.Signed && !s.Signed {
+		// pure bit-slice operation (kept ahead of chain collapsing so that all bytes of one
+		// converted value are slices of the same node)
+		ss := segsOf(t)
+		if s.W <= from.W {
+			return c.fromSegs(takeBits(ss, s.W-1, 0))
+		}
+		return c.fromSegs(append([]seg{{nil, 0, s.W - from.W}}, ss...))
+	}
 	// collapse conv chains when the inner conversion was value-preserving or widening-then-anything
 	if t.Op == OConv {
 		inner := t.Args[0]
@@ -1595,3 +1622,191 @@ func (c *Ctx) restoreScope(s ivScope) {
 	c.over, c.neq = s.over, s.neq
 	c.ivChanged()
 }
+
+// ---------------------------------------------------------------- linear forms
+
+type linForm struct {
+	atoms []*Term
+	coef  []*big.Int
+	k     *big.Int
+}
+
+func (l *linForm) add(t *Term, co *big.Int) {
+	if co.Sign() == 0 {
+		return
+	}
+	for i, a := range l.atoms {
+		if a == t {
+			l.coef[i] = new(big.Int).Add(l.coef[i], co)
+			return
+		}
+	}
+	l.atoms = append(l.atoms, t)
+	l.coef = append(l.coef, co)
+}
+
+func (l *linForm) addForm(o linForm, scale *big.Int) {
+	for i, a := range o.atoms {
+		l.add(a, new(big.Int).Mul(o.coef[i], scale))
+	}
+	l.k = new(big.Int).Add(l.k, new(big.Int).Mul(o.k, scale))
+}
+
+func fitsSort(s Sort, v IV) bool {
+	return v.Lo.Cmp(s.Min()) >= 0 && v.Hi.Cmp(s.Max()) <= 0
+}
+
+// lin decomposes t into an exact linear combination of atoms (as mathematical integers),
+// looking through additions/subtractions/constant multiples that provably do not wrap and
+// through value-preserving conversions (judged with the path-sensitive intervals).
+func (c *Ctx) lin(t *Term, depth int) linForm {
+	out := linForm{k: new(big.Int)}
+	if t.Sort.K != KInt {
+		out.add(t, bigOne)
+		return out
+	}
+	if t.IsConst() {
+		out.k = t.V
+		return out
+	}
+	if depth > 40 {
+		out.add(t, bigOne)
+		return out
+	}
+	switch t.Op {
+	case OAdd, OSub:
+		a, b := c.IV(t.Args[0]), c.IV(t.Args[1])
+		var raw IV
+		if t.Op == OAdd {
+			raw = IV{new(big.Int).Add(a.Lo, b.Lo), new(big.Int).Add(a.Hi, b.Hi)}
+		} else {
+			raw = IV{new(big.Int).Sub(a.Lo, b.Hi), new(big.Int).Sub(a.Hi, b.Lo)}
+		}
+		if fitsSort(t.Sort, raw) {
+			out.addForm(c.lin(t.Args[0], depth+1), bigOne)
+			if t.Op == OAdd {
+				out.addForm(c.lin(t.Args[1], depth+1), bigOne)
+			} else {
+				out.addForm(c.lin(t.Args[1], depth+1), big.NewInt(-1))
+			}
+			return out
+		}
+	case ONeg:
+		a := c.IV(t.Args[0])
+		if fitsSort(t.Sort, IV{new(big.Int).Neg(a.Hi), new(big.Int).Neg(a.Lo)}) {
+			out.addForm(c.lin(t.Args[0], depth+1), big.NewInt(-1))
+			return out
+		}
+	case OMul:
+		if t.Args[1].IsConst() {
+			a := c.IV(t.Args[0])
+			p1 := new(big.Int).Mul(a.Lo, t.Args[1].V)
+			p2 := new(big.Int).Mul(a.Hi, t.Args[1].V)
+			if fitsSort(t.Sort, IV{minBig(p1, p2), maxBig(p1, p2)}) {
+				out.addForm(c.lin(t.Args[0], depth+1), t.Args[1].V)
+				return out
+			}
+		}
+	case OConv:
+		if fitsSort(t.Sort, c.IV(t.Args[0])) {
+			return c.lin(t.Args[0], depth+1)
+		}
+	case OConcat:
+		// zero extension: concat(0.., x)
+		n := len(t.Args)
+		allZero := true
+		for _, a := range t.Args[:n-1] {
+			if !(a.IsConst() && a.V.Sign() == 0) {
+				allZero = false
+			}
+		}
+		if allZero {
+			return c.lin(t.Args[n-1], depth+1)
+		}
+	case OExtract:
+		// low bits of a value that already fits: identity
+		if t.Lo == 0 {
+			a := c.IV(t.Args[0])
+			if a.Lo.Sign() >= 0 && a.Hi.Cmp(pow2(t.Hi+1)) < 0 {
+				return c.lin(t.Args[0], depth+1)
+			}
+		}
+	}
+	out.add(t, bigOne)
+	return out
+}
+
+// buildLin rebuilds a linear form as a term of sort s.
+func (c *Ctx) buildLin(s Sort, atoms []*Term, coef []*big.Int, k *big.Int) *Term {
+	acc := c.Int(s, k)
+	for i, a := range atoms {
+		if coef[i].Sign() == 0 {
+			continue
+		}
+		var at *Term
+		if a.Sort == s {
+			at = a
+		} else {
+			at = c.Conv(a, s)
+		}
+		term := c.Arith(OMul, at, c.Int(s, coef[i]))
+		acc = c.Arith(OAdd, acc, term)
+	}
+	return acc
+}
+
+// divLinear: for x with an exact linear form, x = d*Q + R with R confined to [0,d-1]:
+// returns (x/d, x%d) in Go's truncated semantics when that is determined.
+func (c *Ctx) divLinear(x *Term, d *big.Int) (q, r *Term, ok bool) {
+	if noLin {
+		return nil, nil, false
+	}
+	lf := c.lin(x, 0)
+	if len(lf.atoms) == 0 {
+		return nil, nil, false // constant: folded elsewhere
+	}
+	if len(lf.atoms) == 1 && lf.atoms[0] == x {
+		return nil, nil, false
+	}
+	var qa, ra []*Term
+	var qc, rc []*big.Int
+	for i, a := range lf.atoms {
+		if new(big.Int).Mod(lf.coef[i], d).Sign() == 0 {
+			qa = append(qa, a)
+			qc = append(qc, new(big.Int).Div(lf.coef[i], d))
+		} else {
+			ra = append(ra, a)
+			rc = append(rc, lf.coef[i])
+		}
+	}
+	if len(qa) == 0 {
+		return nil, nil, false
+	}
+	kq, kr := new(big.Int).DivMod(lf.k, d, new(big.Int)) // Euclidean: 0 <= kr < d
+	// interval of R = sum rc*ra + kr
+	rlo, rhi := new(big.Int).Set(kr), new(big.Int).Set(kr)
+	for i, a := range ra {
+		iv := c.IV(a)
+		p1 := new(big.Int).Mul(iv.Lo, rc[i])
+		p2 := new(big.Int).Mul(iv.Hi, rc[i])
+		rlo.Add(rlo, minBig(p1, p2))
+		rhi.Add(rhi, maxBig(p1, p2))
+	}
+	shift := new(big.Int).Div(rlo, d) // floor (d > 0)
+	upper := new(big.Int).Mul(new(big.Int).Add(shift, bigOne), d)
+	if rhi.Cmp(upper) >= 0 {
+		return nil, nil, false
+	}
+	kq = new(big.Int).Add(kq, shift)
+	kr = new(big.Int).Sub(kr, new(big.Int).Mul(shift, d))
+	rZero := len(ra) == 0 && kr.Sign() == 0
+	xiv := c.IV(x)
+	if !rZero && xiv.Lo.Sign() < 0 {
+		return nil, nil, false // truncation toward zero differs from floor for negative x
+	}
+	q = c.buildLin(x.Sort, qa, qc, kq)
+	r = c.buildLin(x.Sort, ra, rc, kr)
+	return q, r, true
+}
+
+var noLin = os.Getenv("VERIF_NOLIN") != ""
